@@ -461,7 +461,7 @@ def r7_oneshot_reopen(ctx):
     rets = cfg.return_blocks()
     bad = []
     srcs = set()
-    for o in T.return_origins(b, ("0",)):
+    for o in T.return_origins(b, OKP):
         if o.kind == "call":
             c = o.term.callee
             srcs.add(c)
